@@ -161,12 +161,14 @@ ReadBack(a, w) == IF w.loc = "none" THEN (IF a.mode = "default" THEN DefaultOf(a
 \*   validate.oneof_members_skipped      the rules attached to a OneOf member are not applied
 \*   validate.required_oneof_unchecked   a required OneOf attribute that is not set is let through
 \*   validate.metadata_list_elements_skipped  rules on the elements of a list carried in metadata are not applied
+\*   validate.absent_collection_length  MinLength of an optional list / map is applied to the unset (nil) value (same defect as in the HTTP transport)
 SideValid(a, d) ==
-  IF a.nest = "oneof" /\ d # Absent /\ Dev("validate.oneof_members_skipped") THEN TRUE
+  IF d = Absent /\ a.mode = "optional" /\ a.rule = "cminlen" /\ Dev("validate.absent_collection_length") THEN FALSE
+  ELSE IF a.nest = "oneof" /\ d # Absent /\ Dev("validate.oneof_members_skipped") THEN TRUE
   ELSE IF a.nest = "oneof" /\ d = Absent /\ Dev("validate.required_oneof_unchecked") THEN TRUE
   ELSE IF a.nest = "elem" /\ a.loc # "message" /\ d # Absent /\ a.rule \notin {"cminlen", "cmaxlen"} /\ Dev("validate.metadata_list_elements_skipped") THEN TRUE
   ELSE GValid(a, d)
-SideViolation(a, d) == ViolationOf(a, d)
+SideViolation(a, d) == IF d = Absent /\ a.mode = "optional" /\ a.rule = "cminlen" THEN "invalid_length" ELSE ViolationOf(a, d)
 
 ---------------------------------------------------------------------------
 FixedP == GAttr("int", "64", "message", "required", "none", "direct")
